@@ -170,7 +170,7 @@ def pathAdd (p : Path) (add : Nat) : Res Path :=
           -- make room for the two length bytes
           let base := if post < 2 then p.base ++ List.replicate (2 - post) 0 else p.base
           let base := if len ≠ 0 then Mem.write base (len - 1) [UInt8.ofNat add] else base
-          let first := if len ≠ 0 then p.first else add
+          let first := if p.len ≠ 0 then p.first else add
           let base := Mem.write base (len + add) [UInt8.ofNat add, 0]
           .ok { p with base := base, first := first, len := len + add + 2 - p.off, keepPost := false }
       else
@@ -178,7 +178,7 @@ def pathAdd (p : Path) (add : Nat) : Res Path :=
         else
           let base := if post < 1 then p.base ++ [0] else p.base
           let base := if len ≠ 0 then Mem.write base (len - 1) [p.sep] else base
-          let first := if len ≠ 0 then p.first else (if add > 255 then 0 else add)
+          let first := if p.len ≠ 0 then p.first else (if add > 255 then 0 else add)
           let base := Mem.write base (len + add) [p.assign]
           .ok { p with base := base, first := first, len := len + add + 1 - p.off, keepPost := false }
 
@@ -252,8 +252,8 @@ def pathDel (p : Path) : Res (Path × Nat) :=
     match r with
     | .ok (len, part) =>
       if p.hasArray then
-        if len > p.base.length then .err .BadValue
-        else .ok ({ p with base := p.base.take len, len := len, first := if len = 0 then 0 else p.first, keepPost := false }, part)
+        if len + p.off > p.base.length then .err .BadValue
+        else .ok ({ p with base := p.base.take (len + p.off), len := len, first := if len = 0 then 0 else p.first, keepPost := false }, part)
       else .ok ({ p with len := len, first := if len = 0 then 0 else p.first, keepPost := false }, part)
     | .err e => .err e
     | .null => .null | .oob => .oob | .fault => .fault
@@ -316,6 +316,28 @@ def nodeAssign : List CNode → List (List Byte) → List Byte → Option (List 
           match nodeAssign c.kids es v with
           | some ks' => some (l.set i (.mk c.name c.value ks'))
           | none => none
+
+/-- what is assigned: a text (stored through `mpt_meta_new`), or a value `mpt_meta_new`/`mpt_meta_set` have no
+    representation for (e.g. `MPT_VALUE_INIT('i', …)`) -/
+inductive AVal where
+  | text (v : List Byte)
+  | noText
+  deriving Repr, Inhabited
+
+/-- `mpt_identifier_set` takes names of at most 65534 bytes (length incl. terminator ≤ UINT16_MAX) -/
+def elemFits (e : List Byte) : Bool := e.length + 1 ≤ 65535
+
+/-- `mpt_node_assign` with every way to fail, in the order of the code: the value is made first (an existing path:
+    `mpt_meta_set`), then the remaining path elements are checked, only then nodes are created and linked.
+    Result: the list afterwards and whether the call succeeded. -/
+def nodeAssignE (l : List CNode) (k : List (List Byte)) (v : AVal) : List CNode × Bool :=
+  match v with
+  | .noText => (l, false)
+  | .text t =>
+    if !k.all elemFits then (l, false)
+    else match nodeAssign l k t with
+      | some l' => (l', true)
+      | none => (l, false)
 
 /-- exact lookup used by query/remove of config_global.c: `mpt_node_query` must consume the whole path -/
 def findExact : List CNode → List (List Byte) → Option CNode
@@ -384,6 +406,33 @@ def configAssign (l : List CNode) (b p : List (List Byte)) (v : List Byte) : Res
     match nodeAssign l1 (b ++ p) v with
     | some l2 => .ok l2
     | none => .err .BadOperation
+
+/-- `configAssign` with every way to fail: a view first checks that value and path can be stored at all, then
+    `make_global` creates the missing part of the base, then the assignment itself -/
+def configAssignE (l : List CNode) (b p : List (List Byte)) (v : AVal) : List CNode × Res Unit :=
+  match p with
+  | [] =>
+    if b = [] then (l, .err .BadValue)
+    else if !b.all elemFits then (l, .err .BadOperation)
+    else match v with
+      | .noText => (l, .err .BadOperation)
+      | .text t =>
+        match nodeAssign (ensure l b) b t with
+        | some l2 => (l2, .ok ())
+        | none => (l, .err .BadOperation)
+  | _ =>
+    if !(b ++ p).all elemFits then (l, .err .BadOperation)
+    else match v with
+      | .noText => (l, .err .BadOperation)
+      | .text t =>
+        match nodeAssign (ensure l b) (b ++ p) t with
+        | some l2 => (l2, .ok ())
+        | none => (l, .err .BadOperation)
+
+/-- every element of the tree with its value -/
+def allNodes : List CNode → List (List (List Byte) × Option (List Byte))
+  | [] => []
+  | (.mk n v ks) :: ts => ([n], v) :: (allNodes ks).map (fun e => (n :: e.1, e.2)) ++ allNodes ts
 
 /-- `configQuery` with the value conversion of `mpt_config_getp(…, 's', …)` -/
 def configQuery (l : List CNode) (b p : List (List Byte)) : Res (List Byte) :=
